@@ -13,8 +13,13 @@ PROPS = {
             'assumptions': ['L1800 lint half of the property: linter.rs not yet under contract',
                             'that Poison::Error(MissingBraces/NonFinalLoopStatement/MisplacedLoopStatement) surfaces as E840/E800/E801 is the resolver\'s error collection'],
             'trusted': []},
-    'C09': {'units': ['U-VT'], 'assumptions': [], 'trusted': []},
+    'C09': {'units': ['U-VT', 'U-LEXD'], 'assumptions': ['alpha lexer/parser literal handling and generator constant materialisation are not under contract'], 'trusted': []},
     'C11': {'units': ['U-VT'], 'assumptions': [], 'trusted': []},
+    'C12': {'units': ['U-EXPORT'], 'assumptions': ['expand (import fix-point), Compiler multi-module state and split-equivalence are not under contract'], 'trusted': []},
+    'C13': {'units': ['U-CODE', 'U-LEXD'], 'assumptions': ['alpha spans, rendering (ariadne) and run-to-run determinism are not under contract'], 'trusted': []},
+    'C14': {'units': ['U-LEXD'], 'assumptions': ['the alpha lexer itself is not under contract, hence not the headline equivalence'], 'trusted': []},
+    'C15': {'units': ['U-LEXD', 'U-HDR'], 'assumptions': ['XML dumps (as_xml/print_xml) excluded: format!/Box<dyn Iterator>/&str slicing', 'parser units under construction'], 'trusted': []},
+    'C17': {'units': ['U-HDR'], 'assumptions': ['tree invariant (zones well bracketed, no reference crosses a zone) is a precondition here; parser side under construction'], 'trusted': []},
 }
 
 NOT_APPLICABLE = {
@@ -30,8 +35,7 @@ NOT_APPLICABLE = {
 # properties planned but not yet claimed are listed here until their check exists
 PENDING = {
 'C08': 'check under construction (U-MUT)',
-    'C12': 'check under construction (U-EXPORT)', 'C13': 'check under construction (U-CODE)', 'C14': 'check under construction (U-LEXD)',
-    'C15': 'check under construction (delta units)', 'C16': 'check under construction (U-PARSE layout)', 'C17': 'check under construction (U-HDR)',
+    'C16': 'check under construction (U-PARSE layout)',
 }
 for _p, _r in PENDING.items():
     if _p not in PROPS:
@@ -44,7 +48,17 @@ LEVELS = {
             'note': 'trusted: Verus+Z3, slicer/splicer, rules R1/R2/R14 (iterator chains to loops, iter().find to verified slice_find), derived Clone is identity, [T]::reverse spec, vstd Vec/String specs; opaque: Location, Expression, Comparison, ...; assumes < 2^32 labels; rejection surfacing (resolver) not under contract'},
     'C06': {'text': 'Proof (Verus, unbounded over all statement trees) that syntax.rs replaces exactly the statements violating the placement rules by the E840/E800/E801 error variants (relational oracle ok/okb/okf over the three context flags, incl. flag protocol inv/mono) for Statement, Block, FunctionBody, Declaration and analyze. PARTIAL: the L1800 lint sentence (linter.rs) is not yet under contract.',
             'note': 'trusted: Verus+Z3, slicer/splicer, rules R1/R3, derived Default/Clone specs, [T]::reverse spec; opaque expression/location types; surfacing of Poison as diagnostics (resolver) not under contract'},
-    'C09': {'text': 'PARTIAL: proof that min_i128/max_u128 are exactly -2^(bits-1) / 2^(bits-1)-1 / 2^bits-1 for every integer type; lexer/linter parts added as their units land.',
+    'C12': {'text': 'PARTIAL (small): proof that extract_public/export of expander.rs expose exactly the pub declarations, functions as signatures, Public cleared, all other fields equal; imports/poison/private give None. expand(), module composition and split-equivalence are NOT under contract.',
+            'note': 'trusted: Verus+Z3, slicer/splicer, rule R3, enumset model (remove/clone) over a Set view, Result::clone spec, opaque AST field types with identity Clone'},
+    'C13': {'text': 'PARTIAL (small): proof that every variant of Error::code() returns a code that has a section in docs/errors.md (catalogue regenerated from the headings on every run; one named obligation per variant; 8 undocumented codes are recorded known findings), plus delta token-location arithmetic (line_offset cannot underflow). Alpha spans, rendering and determinism are NOT under contract.',
+            'note': 'trusted: Verus+Z3, slicer/splicer, heading parser of docs/errors.md'},
+    'C14': {'text': 'PARTIAL: delta lexer only (unbounded, all byte strings <= 2^31): digit values, suffix table, identifier-continuation class, span arithmetic, termination and panic-freedom of all 13 loops. The alpha lexer and the equivalence of the two lexers are NOT under contract.',
+            'note': 'trusted: Verus+Z3, slicer/splicer, rules R4-R7/R12 and the verified PeekIter/slice_eq shims, std specs is_ascii/is_ascii_graphic/char::from_u32/then_some'},
+    'C15': {'text': 'Proof (Verus, unbounded) for lexing and header extraction: for every byte string the delta lexer with its uninitialised token buffers terminates without overflow, out-of-bounds access or failing expect, and the unsafe set_len precondition (cells initialised) is discharged end to end through the buffer invariant; header extraction writes in bounds and initialises what set_len exposes. PARTIAL: parser units under construction; XML dumps excluded.',
+            'note': 'trusted: Verus+Z3, slicer/splicer, rewrite rules, MaybeUninit/Vec spare-capacity model (std safety contract), Vec::with_capacity gives exactly n, allocation never fails, unbounded stack'},
+    'C17': {'text': 'Proof (Verus, unbounded over all node sequences) that build_header/build_header_nodes/convert_for_head output exactly the public nodes in order, pub flag cleared, function bodies removed, node ids shifted by the number of skipped nodes, declarations = declaration nodes in order - under the tree invariant (zones well bracketed, no reference crosses a zone), which is the parser\'s obligation and is a precondition here.',
+            'note': 'trusted: Verus+Z3, slicer/splicer, rules R4/R13/R17/R18/R19, enumset bit model, U24 conversions (slice patterns; proved separately by Kani when U-DIG lands), MaybeUninit/Vec model'},
+    'C09': {'text': 'PARTIAL: proof that min_i128/max_u128 are exactly -2^(bits-1) / 2^(bits-1)-1 / 2^bits-1 for every integer type; delta lexer: decimal/hex digit values, the eleven integer suffixes (E141 otherwise), overflow-free accumulation with E140 on overflow.',
             'note': 'trusted: Verus+Z3, slicer/splicer; usize/pointers are 64-bit as the code itself assumes'},
     'C11': {'text': 'PARTIAL: proof that the type-legality predicates of value_type.rs (is_wellformed, can_be_*) equal a declarative spec of the E350-E359 shapes for every type of any nesting depth; permutation invariance and cycle detection are NOT under contract.',
             'note': 'trusted: Verus+Z3, slicer/splicer, derived PartialEq/Clone specs'},
